@@ -26,7 +26,7 @@ Lemma split_first_no_nl : forall sep s a b, split_first sep s = Some (a, b) -> n
 Proof.
   induction s as [|c r IH]; intros a b H N.
   - discriminate.
-  - cbn [split_first] in H. destruct (prefix sep (String c r)).
+  - cbn [split_first] in H. destruct (starts_with sep (String c r)).
     + inversion H; subst. split; auto. now apply no_nl_drop.
     + destruct (split_first sep r) as [[x y]|] eqn:E; try discriminate.
       inversion H; subst. cbn [no_nl] in N |- *. apply andb_true_iff in N. destruct N as [N1 N2].
@@ -56,10 +56,10 @@ Lemma getopt_args_incl : forall sh lo argv os ar, getopt sh lo argv = GOk os ar 
 Proof.
   induction argv as [|a rest IH]; intros os ar H; cbn [getopt] in H.
   - inversion H. apply incl_refl.
-  - destruct (prefix "-" a && negb (String.eqb a "-")).
+  - destruct (starts_with "-" a && negb (String.eqb a "-")).
     + destruct (String.eqb a "--").
       * inversion H; subst. apply incl_tl, incl_refl.
-      * destruct (prefix "--" a).
+      * destruct (starts_with "--" a).
         -- destruct (do_long lo (drop 2 a)); try discriminate.
            destruct (getopt sh lo rest) eqn:E; try discriminate. inversion H; subst.
            apply incl_tl. eapply IH; eauto.
@@ -70,5 +70,5 @@ Proof.
 Qed.
 
 (* a first argument that does not start with a dash ends option processing at once *)
-Lemma getopt_plain : forall sh lo a rest, prefix "-" a = false -> getopt sh lo (a :: rest) = GOk [] (a :: rest).
+Lemma getopt_plain : forall sh lo a rest, starts_with "-" a = false -> getopt sh lo (a :: rest) = GOk [] (a :: rest).
 Proof. intros. cbn [getopt]. now rewrite H. Qed.
